@@ -395,7 +395,9 @@ class _cs(spmatrix):
             self.indices = _i32(ni)
             self.indptr = _i32(np_)
 
-    def tocoo(self, copy=True):
+    def tocoo(self, copy=None):
+        if copy is None:
+            copy = self._maj != 0       # scipy: csr.tocoo(copy=False), csc.tocoo(copy=True)
         maj = []
         for k in range(len(self.indptr) - 1):
             maj += [k] * int(self.indptr[k + 1] - self.indptr[k])
@@ -404,6 +406,13 @@ class _cs(spmatrix):
             o = coo_matrix((self.data[:n].copy(), (maj, self.indices[:n].copy())), shape=self._shape)
         else:
             o = coo_matrix((self.data[:n].copy(), (self.indices[:n].copy(), maj)), shape=self._shape)
+        if not copy:
+            # scipy shares the value array and the minor index array with the source (the major one is freshly expanded)
+            o.data = self.data[:n]
+            if self._maj == 0:
+                o.col = self.indices[:n]
+            else:
+                o.row = self.indices[:n]
         o._dtype = self._dtype
         return o
 
